@@ -122,9 +122,21 @@ Definition spec_ok05 (c : call) (o : outcome) : bool :=
   | Ok (outs, _) => all2 (ex_ok05 (c_rounded c)) (c_ex c) outs
   end.
 
+(* decidable form of the theorem's scope (Proofs.scope05), evaluated on every exact-mode case *)
+Definition decode (A L : nat) (x : list Qc) : list nat :=
+  map (fun p => hd O (filter (fun k => Qc_eq_bool (nth (k * L + p) x 0) 1) (seq 0 A))) (seq 0 L).
+Definition scope_pair05b (e : ecall) (p : pair) : bool :=
+  let rr := run QcX (p_net p) (e_x e) (p_ref p) in
+  chainb QcX (fst rr) (e_x e) (p_ref p) (fst (snd rr)) (snd (snd rr)) &&
+  (length (fst (snd rr)) =? e_nout e)%nat.
+Definition scope05b (e : ecall) : bool :=
+  list_eqb Qc_eq_bool (e_x e) (ohe QcX (e_A e) (e_L e) (decode (e_A e) (e_L e) (e_x e))) &&
+  (length (e_x e) =? e_n e)%nat && negb (length (e_pairs e) =? 0)%nat &&
+  (e_target e <? e_nout e)%nat && forallb (scope_pair05b e) (e_pairs e).
+
 (* the model is C04's: backward pass, projection, mean, mask *)
 Definition check_case05 (c : case) : nat :=
   let '(cl, o, skip) := c in
   if skip then 0%nat
-  else verdict (outcome_close cl o (model cl) && (c_rounded cl || forallb exact_ecallb (c_ex cl)))
+  else verdict (outcome_close cl o (model cl) && (c_rounded cl || forallb scope05b (c_ex cl)))
                (spec_ok05 cl o).
